@@ -39,6 +39,10 @@ pub(crate) struct Worker<T: Sync + Send + 'static> {
 }
 
 impl<T: Sync + Send + 'static> Worker<T> {
+    #[cfg(nucleo_verif)]
+    pub(crate) fn verif_in_flight(&self) -> Vec<u32> {
+        self.in_flight.clone()
+    }
     pub(crate) fn item_count(&self) -> u32 {
         self.last_snapshot - self.in_flight.len() as u32
     }
@@ -100,6 +104,8 @@ impl<T: Sync + Send + 'static> Worker<T> {
             let in_flight = Mutex::new(&mut self.in_flight);
             let items = new_snapshot.map(|(idx, item)| {
                 let Some(item) = item else {
+                    #[cfg(nucleo_verif)]
+                    crate::verif::yield_point("scan.in_flight", idx as u64);
                     in_flight.lock().push(idx);
                     unmatched.fetch_add(1, atomic::Ordering::Relaxed);
                     return Match {
@@ -120,6 +126,8 @@ impl<T: Sync + Send + 'static> Worker<T> {
                 Match { score, idx }
             });
             self.matches.par_extend(items);
+            #[cfg(nucleo_verif)]
+            crate::verif::permute_in_flight(&mut self.in_flight);
             self.last_snapshot = end;
         }
     }
@@ -155,6 +163,8 @@ impl<T: Sync + Send + 'static> Worker<T> {
     pub(crate) unsafe fn run(&mut self, pattern_status: pattern::Status, cleared: bool) {
         self.running = true;
         self.was_canceled = false;
+        #[cfg(nucleo_verif)]
+        crate::verif::yield_point("run.start", cleared as u64);
 
         if cleared {
             self.last_snapshot = 0;
@@ -166,9 +176,15 @@ impl<T: Sync + Send + 'static> Worker<T> {
         if self.pattern.is_empty() {
             self.reset_matches();
             self.process_new_items_trivial();
+            #[cfg(nucleo_verif)]
+            crate::verif::yield_point("run.before_notify_read", 1);
             if self.should_notify.load(atomic::Ordering::Relaxed) {
+                #[cfg(nucleo_verif)]
+                crate::verif::yield_point("run.before_notify", 1);
                 (self.notify)();
             }
+            #[cfg(nucleo_verif)]
+            crate::verif::yield_point("run.end", 1);
             return;
         }
 
@@ -204,6 +220,8 @@ impl<T: Sync + Send + 'static> Worker<T> {
             self.process_new_items(&unmatched);
         }
 
+        #[cfg(nucleo_verif)]
+        crate::verif::yield_point("run.before_sort", 0);
         let canceled = par_quicksort(
             &mut self.matches,
             |match1, match2| {
@@ -245,10 +263,16 @@ impl<T: Sync + Send + 'static> Worker<T> {
         } else {
             self.matches
                 .truncate(self.matches.len() - take(unmatched.get_mut()) as usize);
+            #[cfg(nucleo_verif)]
+            crate::verif::yield_point("run.before_notify_read", 0);
             if self.should_notify.load(atomic::Ordering::Relaxed) {
+                #[cfg(nucleo_verif)]
+                crate::verif::yield_point("run.before_notify", 0);
                 (self.notify)();
             }
         }
+        #[cfg(nucleo_verif)]
+        crate::verif::yield_point("run.end", canceled as u64);
     }
 
     fn reset_matches(&mut self) {
